@@ -272,6 +272,13 @@ impl Daemon {
         }
         toml.push_str("\n[auth_users]\n");
         for (u, (hash, salt)) in opts.users.iter().zip(hashes.iter()) {
+            // accounts whose configured hash no password can match: an
+            // empty hash, a hash that is not hexadecimal ("locked")
+            let hash = match u.password.as_str() {
+                "#locked-empty" => "",
+                "#locked-nonhex" => "!locked",
+                _ => hash.as_str(),
+            };
             toml.push_str(&format!(
                 "{} = {{ password_hash = \"{hash}\", salt = \"{salt}\", \
                  role = {} }}\n",
